@@ -12,7 +12,7 @@ import z3
 from . import ops
 from .ops import Unsupported
 from .state import Frame, HeapObj, State
-from .values import (NONE, V, VBool, VBytes, VDictC, VExc, VExt, VFunc, VInt, VMod,
+from .values import (VTable, NONE, V, VBool, VBytes, VDictC, VExc, VExt, VFunc, VInt, VMod,
                      VNoneT, VReal, VRef, VSeq, VSetC, VStr, VTuple, VType, VUnk, fresh_name)
 
 BUILTIN_TYPES = {"int", "str", "bytes", "bool", "float", "list", "dict", "tuple", "set",
@@ -674,6 +674,9 @@ class ExprMixin:
                 return []
             pos = z3.If(it < 0, it + base.length, it)
             return [(st, base.elem(z3.simplify(pos)))]
+        if isinstance(base, VTable) and isinstance(idx, VInt) and idx.is_bv and idx.const() is None \
+                and (1 << idx.t.size()) <= len(base.items):
+            return [(st, VInt(base.fn(idx.t)))]
         items = self.concrete_items(st, base)
         if items is not None and isinstance(idx, (VInt, VBool)):
             if isinstance(idx, VBool):
